@@ -17,7 +17,7 @@ while read -r pid commit key; do
      echo "$pid $key $commit: REVERT-CONFLICT"; git -C /repo worktree remove --force "$W"; continue
   fi
   t0=$(date +%s)
-  out=$(VERIF_NO_REGRESS=1 VERIF_REPO="$W" VERIF_BUILD_DIR=/tmp/mut-build VERIF_JOBS=${VERIF_JOBS:-8} ./check "$pid" --tier quick --no-evidence 2>&1 | grep -av WARNING)
+  out=$(VERIF_NO_REGRESS=1 VERIF_REPO="$W" VERIF_BUILD_DIR=/tmp/mut-build VERIF_JOBS=${VERIF_JOBS:-8} timeout -k 10 1800 ./check "$pid" --tier quick --no-evidence 2>&1 | grep -av WARNING)
   n=$(echo "$out" | grep -ac '^VIOLATION')
   subs=$(echo "$out" | grep -a '^  subcheck=' | sed 's/^  subcheck=\([a-z_0-9A-Z]*\):.*/\1/' | sort -u | tr '\n' ',')
   echo "$pid $key $commit: $n violation line(s) [${subs%,}] $(( $(date +%s) - t0 ))s"
